@@ -480,9 +480,26 @@ class SimplicialComplex(Hypergraph):
 
         """
 
+        faces = []  # container to store subfaces
+        try:
+            self._add_simplices_from(ebunch_to_add, max_order, faces, **attr)
+        finally:
+            # add the subfaces of what has been inserted (also when an element
+            # of ebunch_to_add raised an error, so that the complex stays closed)
+            faces = set(faces)  # get unique subfaces
+            for members in faces:
+                # check that it does not exist yet (based on members, not ID)
+                if not members or self.has_simplex(members):
+                    continue
+
+                self._add_face(members)
+
+    def _add_simplices_from(self, ebunch_to_add, max_order, faces, **attr):
+        """Helper function of add_simplices_from: adds the simplices of
+        `ebunch_to_add` and appends the subfaces still to be added to `faces`."""
+
         # format 5 is the easiest one
         if isinstance(ebunch_to_add, dict):
-            faces = []  # container to store subfaces
             for idx, members in ebunch_to_add.items():
                 # check that it does not exist yet (based on members, not ID)
                 if not members or self.has_simplex(members):
@@ -515,15 +532,6 @@ class SimplicialComplex(Hypergraph):
 
                 # store subfaces
                 faces += self._subfaces(members)
-
-            # add subfaces
-            faces = set(faces)  # get unique subfaces
-            for members in faces:
-                # check that it does not exist yet (based on members, not ID)
-                if not members or self.has_simplex(members):
-                    continue
-
-                self._add_face(members)
 
             return
 
@@ -560,7 +568,6 @@ class SimplicialComplex(Hypergraph):
         ):
             raise XGIError("Members cannot be specified as a string")
 
-        faces = []
         # now we may iterate over the rest
         e = first_edge
         while True:
@@ -647,15 +654,6 @@ class SimplicialComplex(Hypergraph):
                 e = next(new_edges)
             except StopIteration:
                 break
-
-        # add subfaces
-        faces = set(faces)  # get unique faces
-        for members in faces:
-            # check that it does not exist yet (based on members, not ID)
-            if not members or self.has_simplex(members):
-                continue
-
-            self._add_face(members)
 
     def close(self):
         """Adds all missing subfaces to the complex.
